@@ -16,7 +16,7 @@ from dataclasses import dataclass, field
 from typing import Optional, List, Dict, NamedTuple
 import datetime
 from mashumaro import DataClassDictMixin
-from mashumaro.config import BaseConfig
+from mashumaro.config import BaseConfig, TO_DICT_ADD_OMIT_NONE_FLAG, TO_DICT_ADD_BY_ALIAS_FLAG
 from mashumaro.dialect import Dialect
 
 
@@ -39,11 +39,25 @@ def make_dialect(opts):
     return type("D", (Dialect,), ns)
 
 
-CFG_DIALECT = make_dialect(CFG_OPTS) if CFG_OPTS is not None else None
+# CFG_MODE "dialect": the twin whose classes have Config.dialect = make_dialect(CFG_OPTS)
+# CFG_MODE "options": the twin whose classes set the same options directly on Config
+CFG_DIALECT = make_dialect(CFG_OPTS) if (CFG_OPTS is not None and CFG_MODE == "dialect") else None
 
 
 class Cfg(BaseConfig):
     dialect = CFG_DIALECT
+
+
+if CFG_OPTS is not None and CFG_MODE == "options":
+    for _o in ("omit_none", "omit_default", "serialize_by_alias", "namedtuple_as_dict"):
+        if CFG_OPTS.get(_o) is not None:
+            setattr(Cfg, _o, CFG_OPTS[_o])
+    if CFG_OPTS.get("strategy"):
+        Cfg.serialization_strategy = dict(make_dialect(CFG_OPTS).serialization_strategy)
+
+
+class FlagCfg(Cfg):
+    code_generation_options = [TO_DICT_ADD_OMIT_NONE_FLAG, TO_DICT_ADD_BY_ALIAS_FLAG]
 
 
 class NT(NamedTuple):
@@ -79,6 +93,23 @@ class Nested:
     p: NT = NT(5, 6)
     o: Optional[int] = None
     Config = Cfg
+
+
+@dataclass
+class Flagged:
+    """keyword flags: the keywords' defaults must be the resolved options"""
+    a: Optional[int] = None
+    b: int = field(default=1, metadata={"alias": "bb"})
+    n: Optional[str] = None
+    sub: Sub = field(default_factory=Sub)
+    Config = FlagCfg
+
+
+@dataclass
+class FlaggedMixin(DataClassDictMixin):
+    a: Optional[int] = None
+    b: int = field(default=1, metadata={"alias": "bb"})
+    Config = FlagCfg
 
 
 @dataclass
@@ -123,11 +154,13 @@ def codecs():
 _n = itertools.count()
 
 
-def new_module(cfg_opts=None):
-    """cfg_opts None: the classes as written.  Otherwise the twin: every class has Config.dialect = make_dialect(cfg_opts)."""
+def new_module(cfg_opts=None, mode="dialect"):
+    """cfg_opts None: the classes as written.  Otherwise a twin: every class has Config.dialect = make_dialect(cfg_opts)
+    (mode "dialect") or sets the same options directly on its Config (mode "options")."""
     mod = types.ModuleType(f"c13_codec_{next(_n)}")
     sys.modules[mod.__name__] = mod
     mod.__dict__["CFG_OPTS"] = cfg_opts
+    mod.__dict__["CFG_MODE"] = mode
     exec(CODEC_SRC, mod.__dict__)
     return mod
 
@@ -204,6 +237,16 @@ def gen_value_expr(r, shape: str) -> str:
             parts.append(f"p=NT({r.choice([5, 1])}, {r.choice([6, 2])})")
         if r.random() < 0.6:
             parts.append(f"o={r.choice(['None', '1'])}")
+    elif shape in ("Flagged", "FlaggedMixin"):
+        if r.random() < 0.8:
+            parts.append(f"a={r.choice(['None', '3'])}")
+        if r.random() < 0.6:
+            parts.append(f"b={r.choice([1, 2])}")
+        if shape == "Flagged":
+            if r.random() < 0.5:
+                parts.append(f"n={r.choice(['None', repr('Ab')])}")
+            if r.random() < 0.5:
+                parts.append("sub=" + sub())
     elif shape == "Mixin":
         if r.random() < 0.6:
             parts.append(f"a={r.choice(['None', '3'])}")
@@ -231,17 +274,19 @@ def check_one(mod, fmt: str, opts: dict, shape: str, expr: str):
         return {"stage": "basic", "observed": f"{type(e).__name__}: {e}", "expected": "a basic document"}
     if fmt == "basic" and shape != "Mixin":      # Mixin's own Config sets an option: Config beats default_dialect but not Config.dialect
         # independent reading of "default_dialect=D": the twin classes whose Config.dialect is D, no codec dialect
-        tw = new_module(opts)
-        try:
-            tns = tw.__dict__
+        for mode in ("dialect", "options"):
+            tw = new_module(opts, mode)
             try:
-                twin_doc = BE(tns[shape]).encode(eval(expr, tns))
-            except Exception as e:  # noqa: BLE001
-                twin_doc = f"{type(e).__name__}: {e}"
-        finally:
-            sys.modules.pop(tw.__name__, None)
-        if norm(basic_doc) != (norm(twin_doc) if not isinstance(twin_doc, str) else twin_doc):
-            return {"stage": "basic-vs-config-dialect", "observed": norm(basic_doc), "expected": norm(twin_doc) if not isinstance(twin_doc, str) else twin_doc}
+                tns = tw.__dict__
+                try:
+                    twin_doc = BE(tns[shape]).encode(eval(expr, tns))
+                except Exception as e:  # noqa: BLE001
+                    twin_doc = f"{type(e).__name__}: {e}"
+            finally:
+                sys.modules.pop(tw.__name__, None)
+            if norm(basic_doc) != (norm(twin_doc) if not isinstance(twin_doc, str) else twin_doc):
+                return {"stage": "basic-vs-config-" + mode, "observed": norm(basic_doc),
+                        "expected": norm(twin_doc) if not isinstance(twin_doc, str) else twin_doc}
     if fmt == "toml" and opts.get("omit_none") is False and has_none(basic_doc):
         return "excluded:toml-cannot-represent-None"
     E, Dc, parse = C[fmt]
@@ -256,7 +301,11 @@ def check_one(mod, fmt: str, opts: dict, shape: str, expr: str):
     if fmt in ("msgpack", "toml") and not opts.get("strategy"):
         # "on top of the format's own requirements": where the format carries a type natively without a dialect
         # (bytes in MessagePack, datetime/date/time in TOML) it still does with one that does not mention that type
-        plain = leaf_types(parse(E(T).encode(eval(expr, ns))))
+        try:
+            plain = leaf_types(parse(E(T).encode(eval(expr, ns))))
+        except Exception as e:  # noqa: BLE001
+            return {"stage": "format-without-dialect", "observed": f"{type(e).__name__}: {e}",
+                    "expected": "the format's own document (no default_dialect given)"}
         withd = leaf_types(parse(wire))
         diff = {k: (withd[k], plain[k]) for k in withd if k in plain and withd[k] != plain[k]}
         if diff:
@@ -317,7 +366,7 @@ def codec_part(ctx: vlib.Ctx, extra=None):
     excluded = 0
     try:
         vecs = option_vectors(ctx, extra)
-        shapes = ["Plain", "Nested", "Mixin"]
+        shapes = ["Plain", "Nested", "Mixin", "Flagged", "FlaggedMixin"]
         nvals = ctx.budget(1, 3)
         for opts in vecs:
             for shape in shapes:
